@@ -4,9 +4,9 @@ IMPORTS = "From Ergo Require Import Common.Base Cron.Model Cron.Spec Cron.Cases.
 
 PARTS = [
     # sub-command, case type, corr checkers, spec checkers, premise checkers, quick n, thorough n
-    ("parse", "pcase", ["corr_parse", "corr_lex", "corr_civil", "corr_run"], ["spec_parse_run"], ["premise_parse_run"], 1500, 20000),
-    ("sched", "scase", ["corr_sched"], ["spec_sched"], ["premise_sched"], 120, 1500),
-    ("tick", "tcase", ["corr_tick"], ["spec_tick"], ["premise_tick"], 400, 5000),
+    ("parse", "pcase", ["corr_parse", "corr_lex", "corr_civil", "corr_run"], ["spec_parse_run"], ["premise_parse_run"], 1200, 20000),
+    ("sched", "scase", ["corr_sched"], ["spec_sched"], ["premise_sched"], 80, 1200),
+    ("tick", "tcase", ["corr_tick"], ["spec_tick"], ["premise_tick"], 300, 4000),
 ]
 
 
